@@ -69,3 +69,125 @@ def ast_roundtrip(root):
     for f in hand_written_files(root):
         text = ast.unparse(ast.parse(open(f).read())) + "\n"
         open(f, "w").write(text)
+
+
+class _CompStmt(ast.NodeTransformer):
+    """`[f(x) for x in xs if c]` used as a statement -> explicit loops."""
+
+    def visit_Expr(self, node):
+        v = node.value
+        if isinstance(v, ast.ListComp):
+            body = [ast.Expr(value=v.elt)]
+            for gen in reversed(v.generators):
+                for cond in reversed(gen.ifs):
+                    body = [ast.If(test=cond, body=body, orelse=[])]
+                body = [ast.For(target=gen.target, iter=gen.iter, body=body, orelse=[])]
+            return [ast.fix_missing_locations(ast.copy_location(b, node)) for b in body]
+        return node
+
+
+class _SwapBranches(ast.NodeTransformer):
+    """`if c: A else: B` (no elif chain) -> `if not c: B else: A`."""
+
+    def visit_If(self, node):
+        self.generic_visit(node)
+        if node.orelse and not (len(node.orelse) == 1 and isinstance(node.orelse[0], ast.If)):
+            return ast.copy_location(ast.If(test=ast.UnaryOp(op=ast.Not(), operand=node.test), body=node.orelse, orelse=node.body), node)
+        return node
+
+
+class _NoneTests(ast.NodeTransformer):
+    """`x == None` / `x != None` <-> `x is None` / `x is not None` (both directions flipped)."""
+
+    def visit_Compare(self, node):
+        self.generic_visit(node)
+        if len(node.ops) == 1 and isinstance(node.comparators[0], ast.Constant) and node.comparators[0].value is None:
+            flip = {ast.Eq: ast.Is, ast.NotEq: ast.IsNot, ast.Is: ast.Eq, ast.IsNot: ast.NotEq}
+            for k, v in flip.items():
+                if isinstance(node.ops[0], k):
+                    node.ops = [v()]
+                    break
+        return node
+
+
+class _ExpandAug(ast.NodeTransformer):
+    """`x += e` on a plain name -> `x = x + e`."""
+
+    def visit_AugAssign(self, node):
+        if isinstance(node.target, ast.Name):
+            return ast.copy_location(ast.Assign(targets=[ast.Name(id=node.target.id, ctx=ast.Store())],
+                                                value=ast.BinOp(left=ast.Name(id=node.target.id, ctx=ast.Load()), op=node.op, right=node.value)), node)
+        return node
+
+
+def _apply(root, transformer):
+    for f in hand_written_files(root):
+        t = transformer().visit(ast.parse(open(f).read()))
+        ast.fix_missing_locations(t)
+        text = ast.unparse(t) + "\n"
+        open(f, "w").write(text)
+
+
+def comprehension_statements(root):
+    _apply(root, _CompStmt)
+
+
+def swap_branches(root):
+    _apply(root, _SwapBranches)
+
+
+def none_tests(root):
+    _apply(root, _NoneTests)
+
+
+def expand_augassign(root):
+    _apply(root, _ExpandAug)
+
+
+ALL = {"ast_unparse": ast_roundtrip, "alpha_rename": alpha_rename, "comprehension_statements": comprehension_statements,
+       "swap_branches": swap_branches, "none_tests": none_tests, "expand_augassign": expand_augassign}
+
+
+class _FlipCompare(ast.NodeTransformer):
+    """`a < b` -> `b > a` etc. (single-operator order comparisons)."""
+
+    def visit_Compare(self, node):
+        self.generic_visit(node)
+        flip = {ast.Lt: ast.Gt, ast.Gt: ast.Lt, ast.LtE: ast.GtE, ast.GtE: ast.LtE}
+        if len(node.ops) == 1 and type(node.ops[0]) in flip:
+            return ast.copy_location(ast.Compare(left=node.comparators[0], ops=[flip[type(node.ops[0])]()], comparators=[node.left]), node)
+        return node
+
+
+class _ElseAfterReturn(ast.NodeTransformer):
+    """`if c: ...return` followed by more statements -> the rest moves into an else branch."""
+
+    def _block(self, stmts):
+        out = []
+        for i, st in enumerate(stmts):
+            if isinstance(st, ast.If) and not st.orelse and st.body and isinstance(st.body[-1], (ast.Return, ast.Raise, ast.Continue, ast.Break)) and i + 1 < len(stmts) \
+                    and not any(isinstance(x, (ast.FunctionDef, ast.ClassDef)) for x in stmts[i + 1:]):
+                st.orelse = self._block(stmts[i + 1:])
+                out.append(st)
+                return out
+            out.append(st)
+        return out
+
+    def generic_visit(self, node):
+        super().generic_visit(node)
+        for field in ("body", "orelse", "finalbody"):
+            v = getattr(node, field, None)
+            if isinstance(v, list) and v and all(isinstance(x, ast.stmt) for x in v):
+                setattr(node, field, self._block(v))
+        return node
+
+
+def flip_comparisons(root):
+    _apply(root, _FlipCompare)
+
+
+def else_after_return(root):
+    _apply(root, _ElseAfterReturn)
+
+
+ALL.update({"flip_comparisons": flip_comparisons, "else_after_return": else_after_return})
